@@ -569,7 +569,7 @@ def e_tucker(g):
     g.opt(kw, "tol", [0, 1e-2], 0.3)
     if g.flag(0.25):
         kw["mask"] = g.arr(shape, nonneg=True) > 0.3
-    if g.flag(0.2):
+    if g.flag(0.3):  # 0.2 until round 16: c15B (negative entry in fixed_factors) was seen in 5 workloads of a batch only
         fm = g.choice([[0], [len(shape) - 1], [0, 1]])
         crank = _concrete_tucker_rank(shape, rank)
         core_shape = [shape[m] if m in fm else crank[m] for m in range(len(shape))]
